@@ -90,7 +90,7 @@ func (c *Ctx) c12Cleanup() {
 				}
 			}
 			if ev.Kind == pw.EvFieldRead && ev.Field != nil {
-				switch n := ev.Field.Name(); n {
+				switch n := fname(ev.Field); n {
 				case "HeapInUseSoftLimit", "SysMemSoftLimit", "CountSoftLimit":
 					limVals[n] = append(limVals[n], ev.Value)
 				case "HeapInuse", "Sys", "HeapAlloc", "HeapSys", "Alloc", "TotalAlloc":
@@ -181,7 +181,7 @@ func (c *Ctx) c12Cleanup() {
 		neededCleared := needed == triFalse
 		for _, ev := range p.Events {
 			if ev.Kind == pw.EvFieldRead && ev.Field != nil {
-				switch ev.Field.Name() {
+				switch fname(ev.Field) {
 				case "Len":
 					if nilTri(p, ev.Value) == triTrue {
 						cleared["CountSoftLimit"] = true
@@ -200,7 +200,7 @@ func (c *Ctx) c12Cleanup() {
 			// converse: an established breach (or EvictionNeeded()==true) must reach the evictor when one is installed
 			evictInstalled := triUnknown
 			for _, ev := range p.Events {
-				if ev.Kind == pw.EvFieldRead && ev.Field != nil && ev.Field.Name() == "Evict" {
+				if ev.Kind == pw.EvFieldRead && ev.Field != nil && fname(ev.Field) == "Evict" {
 					switch nilTri(p, ev.Value) {
 					case triTrue:
 						evictInstalled = triFalse
@@ -240,7 +240,7 @@ func (c *Ctx) c12Cleanup() {
 		var L *pw.Val
 		for _, e2 := range p.Events {
 			if e2.Kind == pw.EvFieldRead && e2.Field != nil {
-				switch e2.Field.Name() {
+				switch fname(e2.Field) {
 				case "EvictFraction":
 					f = e2.Value
 				case "CountSoftLimit":
@@ -386,10 +386,10 @@ func (c *Ctx) replacedEntryKeeps(b BK, rule string, fields ...string) {
 				fv := ent.Fields[f]
 				ok := false
 				if f == "C" {
-					ok = fv != nil && fv.Kind == pw.KCall && fv.Ev != nil && fv.Ev.Role == "Std:atomic.LoadInt64" && len(fv.Ev.Args) == 1 && fv.Ev.Args[0].Field != nil && fv.Ev.Args[0].Field.Name() == "C"
+					ok = fv != nil && fv.Kind == pw.KCall && fv.Ev != nil && fv.Ev.Role == "Std:atomic.LoadInt64" && len(fv.Ev.Args) == 1 && fv.Ev.Args[0].Field != nil && fname(fv.Ev.Args[0].Field) == "C"
 				} else {
 					// the field of the iterated (replaced) entry
-					ok = fv != nil && fv.Kind == pw.KField && fv.Field != nil && fv.Field.Name() == f && fv.Src != nil
+					ok = fv != nil && fv.Kind == pw.KField && fv.Field != nil && fname(fv.Field) == f && fv.Src != nil
 					if ok {
 						src := fv.Src
 						for src != nil && (src.Kind == pw.KConv || src.Kind == pw.KAssert) {
@@ -711,7 +711,7 @@ func (c *Ctx) c12Wiring(b BK) {
 		var strat *pw.Val
 		var evict *pw.Val
 		for _, ev := range p.Events {
-			if ev.Kind == pw.EvFieldRead && ev.Field != nil && ev.Field.Name() == "EvictionStrategy" {
+			if ev.Kind == pw.EvFieldRead && ev.Field != nil && fname(ev.Field) == "EvictionStrategy" {
 				strat = ev.Value
 			}
 			if ev.Kind == pw.EvAssign && ev.Obj != nil && ev.Value != nil && ev.Value.Kind == pw.KFuncRef && strings.HasPrefix(ev.Value.Obj.Name(), "evict") {
@@ -826,13 +826,13 @@ func (c *Ctx) c12Counter() {
 			var now *pw.Val
 			var stores, adds []*pw.Event
 			for _, ev := range p.Events {
-				if ev.Kind == pw.EvFieldRead && ev.Field != nil && ev.Field.Name() == "EvictionStrategy" {
+				if ev.Kind == pw.EvFieldRead && ev.Field != nil && fname(ev.Field) == "EvictionStrategy" {
 					strat = ev.Value
 				}
 				if ev.Kind == pw.EvCall && ev.Role == "Std:time.Time.UnixNano" && now == nil {
 					now = ev.Results[0]
 				}
-				if ev.Kind == pw.EvCall && len(ev.Args) == 2 && ev.Args[0].Field != nil && ev.Args[0].Field.Name() == "C" {
+				if ev.Kind == pw.EvCall && len(ev.Args) == 2 && ev.Args[0].Field != nil && fname(ev.Args[0].Field) == "C" {
 					switch ev.Role {
 					case "Std:atomic.StoreInt64":
 						stores = append(stores, ev)
@@ -840,7 +840,7 @@ func (c *Ctx) c12Counter() {
 						adds = append(adds, ev)
 					}
 				}
-				if ev.Kind == pw.EvFieldWrite && ev.Field != nil && ev.Field.Name() == "C" {
+				if ev.Kind == pw.EvFieldWrite && ev.Field != nil && fname(ev.Field) == "C" {
 					r.Bad("R12.3", name, "non-atomic-counter", c.Pos(ev.Pos), "entry.C is written without sync/atomic", shortTrace(p))
 					bad = true
 				}
